@@ -113,15 +113,16 @@ def run_tasks(tasks, jobs, wall_limit=1500, retries=2):
             elif p.is_alive() and time.time() - t0 < wall_limit:
                 continue
             if res is None:
-                why = "exit code %s" % p.exitcode if not p.is_alive() else "no result within %d s" % wall_limit
+                timed_out = p.is_alive()
+                why = "exit code %s" % p.exitcode if not timed_out else "no result within %d s" % wall_limit
                 if p.is_alive():
                     p.kill()
                 p.join(5)
                 pc.close()
                 del running[key]
-                if attempt + 1 <= retries:
-                    pending.append((task, attempt + 1))
-                    continue
+                if attempt + 1 <= retries and not timed_out:
+                    pending.append((task, attempt + 1))        # a crashed verifier process (libz3) is retried ...
+                    continue                                   # ... a function that exhausts its wall budget is not
                 res = _lost(key, "verifier process lost (%s), %d attempts" % (why, attempt + 1))
             else:
                 pc.close()
@@ -159,7 +160,7 @@ def run_property(pid, tier, seed, jobs):
     if not keys:
         print("no contracts serve %s" % pid)
         return 2
-    results = run_tasks([(k, timeout_ms) for k in sorted(keys)], jobs, wall_limit=1500 if tier == "quick" else 7200)
+    results = run_tasks([(k, timeout_ms) for k in sorted(keys)], jobs, wall_limit=900 if tier == "quick" else 7200)
     known = [k for k in load_known() if k.get("property") == pid and k.get("status") == "open"]
     baseline = load_baseline(pid)
     # an obligation the solver left open: give its function a second, larger budget (one at a time, so that a
